@@ -120,7 +120,8 @@ def rootTy (c : Case) (kind : String) : Option String :=
 def envOf (tb : Tables) (c : Case) (cfg : Cfg) : Env := { cfg := cfg, schema := c.schema, graph := c.graph, vars := c.vars }
 
 def cfgCur (tb : Tables) : Cfg :=
-  { skipTable := tb.skip, opFallbackAnyName := tb.opFallbackAnyName, argCountCheckOnly := tb.argCountCheckOnly }
+  { skipTable := tb.skip, opFallbackAnyName := tb.opFallbackAnyName, argCountCheckOnly := tb.argCountCheckOnly,
+    dupKeyOverwrites := tb.dupKeyOverwrites }
 
 def runModel (tb : Tables) (c : Case) (cfg : Cfg) : T :=
   encResp (run (envOf tb c cfg) c.ops c.opName c.rootNode (rootTy c))
